@@ -17,11 +17,13 @@ package main
 
 import (
 	"fmt"
+	htmltemplate "html/template"
 	"net/url"
 	"reflect"
 	"regexp"
 	"strconv"
 	"strings"
+	texttemplate "text/template"
 	"time"
 
 	"github.com/lyraproj/pcore/px"
@@ -116,7 +118,9 @@ func notApplicable(t *T) px.Type {
 	panic("route not applicable") // counted as a rejected route
 }
 
-var goZero = map[string]interface{}{"int": int(0), "int64": int64(0), "string": "", "float64": float64(0), "[]int": []int(nil), "*int": (*int)(nil)}
+var goZero = map[string]interface{}{"int": int(0), "int64": int64(0), "string": "", "float64": float64(0), "[]int": []int(nil), "*int": (*int)(nil),
+	// two different Go types with one text form "template.Template" (what 403c461 repaired): told apart by the reflect.Type only
+	"text/template.Template": texttemplate.Template{}, "html/template.Template": htmltemplate.Template{}}
 
 func (t *T) buildRep(c px.Context) px.Type {
 	a := make([]string, len(t.Strs))
@@ -571,7 +575,7 @@ func repFamily(all bool) []*V {
 		{"java", "N", ""}, {"java", "", ""}, {"ruby", "n", ""}, {"ruby", "N", "/"}} {
 		add(true, tRep("Runtime", b[0], b[1], b[2]))
 	}
-	for _, g := range []string{"int", "int64", "string", "[]int", "*int"} {
+	for _, g := range []string{"int", "int64", "string", "[]int", "*int", "text/template.Template", "html/template.Template"} {
 		add(true, tRep("GoRuntime", g))
 	}
 	// SemVer types: the same range in several spellings are different descriptions
